@@ -173,6 +173,19 @@ def exec_npv(rate, flows, route):
         return lib.call('NPV', rate, list(flows))
     if route == 'numbers':
         return lib.call('NPV', N(rate), *[N(v) for v in flows])
+    if route == 'call-list-then-scalars':
+        # the flows keep their order however they are grouped into arguments
+        k = max(1, len(flows) // 2)
+        return lib.call('NPV', rate, list(flows[:k]), *flows[k:])
+    if route == 'call-scalar-list-scalar':
+        return lib.call('NPV', rate, flows[0], list(flows[1:-1]),
+                        *flows[-1:]) if len(flows) >= 3 else \
+            lib.call('NPV', rate, flows[0], list(flows[1:]))
+    if route == 'call-nested':
+        k = max(1, len(flows) // 2)
+        return lib.call('NPV', rate, [list(flows[:k]), list(flows[k:])]
+                        if len(flows[:k]) == len(flows[k:])
+                        else [list(flows[:k])] + [list(flows[k:])])
     if route == 'f-lit':
         return lib.eval_formula('=NPV(%s,%s)' % (repr(rate), fl(flows)))
     if route == 'f-range':
@@ -656,7 +669,8 @@ def run_shard(sh, ctx):
                           'route': 'call'}, ctx)
                 if n <= 3:
                     for route in ('call-list', 'numbers', 'f-range', 'f-args',
-                                  'f-lit'):
+                                  'f-lit', 'call-list-then-scalars',
+                                  'call-scalar-list-scalar'):
                         run_case({'op': 'NPV', 'rate': rate, 'flows': flows,
                                   'route': route}, ctx)
                 elif n == 4 and rate in RATES_FEW:
